@@ -5,7 +5,8 @@
    duplicates.  The goto state machine of Router.Find is represented by its structured equivalent
    [find_node] on the same tree (see DESIGN: trusted base). *)
 From Coq Require Import List Arith Bool Ascii String Permutation.
-From Echo.Router Require Import Spec2 Fuel Refine Insert InsProof Walk Live Toks Build Sound Complete Top Tail Literal Host.
+From Echo.Router Require Import Spec2 Fuel Refine Insert InsProof Walk Live Toks Build Sound Complete Top Tail Literal Host HostSrc.
+From Echo Require Base.GoLite Gen.Src_echo.
 Import ListNotations.
 
 (* the tree echo builds, searched as Find does, equals the documented priority search over the set *)
@@ -57,6 +58,18 @@ Theorem C02_host_isolation : forall hs dflt h m p r v, wf_table (find_router hs 
   host_request hs dflt h m p = Served r v -> In r (map fst (table (find_router hs dflt h))).
 Proof. exact host_isolation. Qed.
 Print Assumptions C02_host_isolation.
+
+(* the tie to the source by proof: Echo.findRouter, translated statement by statement from echo.go on every run
+   (Gen/Src_echo.v; language Base/GoLite.v) - the router found under exactly the request's Host value when there is
+   one, the default router otherwise (also when no host router exists at all) *)
+Theorem C02_source_find_router : forall (sym : String.string -> BinNums.Z) nrouters dflt found ok,
+  let st := {| GoLite.locals := [("host"%string, BinNums.Z0)];
+               GoLite.fields := [("len(e.routers)"%string, nrouters); ("e.router"%string, dflt)];
+               GoLite.events := []; GoLite.inputs := [[found; ok]] |} in
+  let '(_, ret) := GoLite.run sym Src_echo.src_find_router_results Src_echo.src_find_router st in
+  ret = [if andb (BinInt.Z.ltb BinNums.Z0 nrouters) (negb (BinInt.Z.eqb ok BinNums.Z0)) then found else dflt].
+Proof. exact HostSrc.src_find_router. Qed.
+Print Assumptions C02_source_find_router.
 
 (* NOT proved at full strength: [is_found] includes being answered by a RouteNotFound route.  The
    stronger reading "the handler of a route registered for the method runs" is refuted on the faithful
